@@ -15,6 +15,12 @@ type genFunc func(r *rand.Rand, t *Trace, thorough bool)
 var generators = map[string]genFunc{}
 
 func main() {
+	if len(os.Args) >= 4 && os.Args[1] == "lockprobe" {
+		ms := 0
+		fmt.Sscanf(os.Args[3], "%d", &ms)
+		lockProbe(os.Args[2], ms)
+		return
+	}
 	if len(os.Args) < 3 || os.Args[1] != "gen" {
 		fmt.Fprintln(os.Stderr, "usage: harness gen <prop> -seed N -tier quick|thorough -out trace -stats stats.json")
 		os.Exit(2)
